@@ -1,0 +1,13 @@
+//go:build verif
+
+// Contracts for govc (comment-only file; see /verif/DESIGN.md section 3).
+package keygen
+
+// ---- start function (C20): keygen (c == nil) or refresh of a well-formed configuration
+//@ func Start$1
+//@   nopanic[C20]
+//@   requires c != nil ==> cfgwf(c)
+//@   requires info.Group != nil
+//@   ensures[C20] result1 != nil ==> result0 == nil
+//@   ensures[C20] result1 == nil ==> result0 != nil
+//@   loop 1: invariant fresh(PublicSharesECDSA)
